@@ -1369,3 +1369,15 @@ Proof.
   specialize (H w_parse Pz false false [] w_rounds (mkinfo [] [] [] w_me w_srv [] (0, 0) [])).
   vm_compute in H. destruct (H _ _ eq_refl) as [T _]. discriminate T.
 Qed.
+
+(* the default verdict of the receiving side: a resource on the peer's bare
+   address; none when no address is known for the peer *)
+Lemma default_verdict_spec remote rid :
+  (j_domain remote <> [] ->
+   default_verdict remote rid = VJid (mkjid (j_local remote) (j_domain remote) rid)) /\
+  (j_domain remote = [] -> default_verdict remote rid = VFail).
+Proof.
+  unfold default_verdict. split; intro H.
+  - destruct (j_domain remote); [contradiction | reflexivity].
+  - rewrite H. reflexivity.
+Qed.
